@@ -90,6 +90,13 @@ def time_grid(rng, family, nt, t_end):
     elif family == "mixed":
         d = 10.0 ** rng.uniform(-8, 3, nt - 1)
         t = np.concatenate([[0.0], np.cumsum(d)])
+    elif family == "dyadic-blocks":
+        # blocks of BIT-EQUAL increments (powers of two), the block size changing a few times: what
+        # np.arange(n) / 1024 or a daily-then-monthly calendar gives; consecutive steps share dt exactly
+        h = 2.0 ** np.floor(np.log2(max(t_end, 1e-300) / max(nt - 1, 1)))
+        mult = 2.0 ** rng.integers(-2, 3, size=max(1, (nt - 1 + 7) // 8))
+        d = np.repeat(mult, 8)[: nt - 1] * h
+        t = np.concatenate([[0.0], np.cumsum(d)])
     else:
         raise ValueError(family)
     return t
